@@ -23,7 +23,8 @@ memb = z3.Function("memb", Label, Key, Bool)       # i in key
 cnt = z3.Function("cnt", Key, Label, Int)          # key.count(i)
 negcount = z3.Function("negcount", Key, Int)       # number of members (with repetition) whose zval is -1
 lt = z3.Function("ordlt", Label, Label, Bool)      # the abstract total order standing for ordering_key
-aval = z3.Function("aval", Label, Real)            # a second ghost assignment ("values"/"connections" maps)
+aval = z3.Function("aval", Label, Real)
+matvalid = z3.Function("matvalid", Key, Bool)    # every member is a non-negative int (Matrix types' key validity)            # a second ghost assignment ("values"/"connections" maps)
 
 LEMMAS = {
     "L1-mono-def": "bmono/smono of empty, unit, concatenation (definition of a product over a list)",
@@ -81,7 +82,7 @@ class Facts:
         bm, sm = bmono(k), smono(k)
         self.add(z3.Or(bm == 0, bm == 1))
         self.add(z3.Or(sm == 1, sm == -1))
-        self.add(z3.Implies(n == 0, z3.And(bm == 1, sm == 1)))
+        self.add(z3.Implies(n == 0, z3.And(bm == 1, sm == 1, matvalid(k))))
         k0, k1 = k[0], k[1]
         self.label(k0)
         self.label(k1)
@@ -99,6 +100,7 @@ class Facts:
         self.key(k)
         self.add(bmono(k) == bmono(a) * bmono(b))
         self.add(smono(k) == smono(a) * smono(b))
+        self.add(matvalid(k) == z3.And(matvalid(a), matvalid(b)))
         return k
 
     def unit(self, i):
@@ -135,5 +137,6 @@ class Facts:
         self.add(f(r) == r)
         self.add(z3.Length(r) <= z3.Length(k))
         self.add(z3.Implies(z3.Length(k) <= 1, r == k))
+        self.add(z3.Implies(matvalid(k), matvalid(r)))
         self.used.add("sq-shape")
         return r
